@@ -88,9 +88,34 @@ def op_abandon(cid, kind, keep, name, count, hold):
     return out
 
 
+def op_hold_reader(cid, kind, keep, name):
+    """Construct a Reader now, consume it later (several readers on one CID constructed up front)."""
+    m = harness.modules()
+    reader = m["validio"].Reader(cid, harness.NamedStringIO(text_of(kind, name), "data.txt"), on_error="yield")
+    keep.append(("reader", name, reader))
+    return "held"
+
+
+def op_consume_held(cid, kind, keep):
+    m = harness.modules()
+    for index, entry in enumerate(keep):
+        if isinstance(entry, tuple) and entry[0] == "reader":
+            _, name, reader = keep.pop(index)
+            events = _events(reader.rows(), m["errors"])
+            try:
+                reader.close()
+                events.append("closed")
+            except m["errors"].CutplaceError as error:
+                events.append(["CLOSE-RAISED", harness.describe_error(error)])
+            return ["consumed", name, events]
+    return "nothing-held"
+
+
 def op_release(cid, kind, keep):
     errors = harness.modules()["errors"]
     out = []
+    for entry in [e for e in keep if isinstance(e, tuple)]:
+        keep.remove(entry)  # constructed but never started readers hold nothing
     while keep:
         generator = keep.pop()
         try:
@@ -170,6 +195,9 @@ OPS = {
     "abandon2_dup_close": (op_abandon, ("dup", 2, False)),
     "abandon0_close": (op_abandon, ("other", 0, False)),
     "release_held": (op_release, ()),
+    "hold_reader_clean": (op_hold_reader, ("clean",)),
+    "hold_reader_dup": (op_hold_reader, ("dup",)),
+    "consume_held_reader": (op_consume_held, ()),
     "noclose_clean": (op_noclose, ("clean",)),
     "noclose_dup": (op_noclose, ("dup",)),
     "validate_clean": (op_validate, ("clean",)),
@@ -213,14 +241,25 @@ def judge(case, part):
             part.transitions += 1
         if history:
             last = history[-1]
-            expected = fresh_observation(kind, last)
+            if last == "consume_held_reader" and isinstance(observed, list):
+                # expected: the same reader constructed and consumed at once on a fresh CID
+                key = (kind, "consume:" + observed[1])
+                if key not in _FRESH:
+                    fresh_keep = []
+                    fresh = fresh_cid(kind)
+                    op_hold_reader(fresh, kind, fresh_keep, observed[1])
+                    _FRESH[key] = op_consume_held(fresh, kind, fresh_keep)
+                expected = _FRESH[key]
+            else:
+                expected = fresh_observation(kind, last)
             part.validated += 1
             if len(history) > 1:
                 part.nontrivial += 1
             part.outcome("%s:%s" % (last, "same" if observed == expected else "differs"))
             if observed != expected:
                 part.fail("%s|%s|outcome-differs-from-fresh-cid" % (kind, last), case, expected, observed)
-        state = (readermachine.check_snapshot(cid), len(keep) > 0)
+        held_readers = tuple(entry[1] for entry in keep if isinstance(entry, tuple))
+        state = (readermachine.check_snapshot(cid), len(keep) > len(held_readers), held_readers)
     finally:
         op_release(cid, kind, keep)
     return state
@@ -233,7 +272,19 @@ def explore(item):
     def run(history):
         return judge({"format": kind, "history": list(history)}, part)
 
-    result = engine.bfs(run, list(OPS), part, max_depth=depth, merge=merge, max_states=500)
+    def extend(history, op):
+        # at most two readers are held at any time
+        if op.startswith("hold_reader"):
+            held = 0
+            for name in history:
+                if name.startswith("hold_reader"):
+                    held += 1
+                elif name == "consume_held_reader" and held:
+                    held -= 1
+            return held < 2
+        return True
+
+    result = engine.bfs(run, list(OPS), part, max_depth=depth, merge=merge, max_states=2000, extend=extend)
     part.note("%s: %s after depth %d, %d states" % (kind, "fixpoint" if result["fixpoint"] else "depth bound", result["depth_completed"], result["states"]))
     longest = max(result["representatives"].values(), key=len)
     part.sample({"format": kind, "states": result["states"], "transitions": result["transitions"], "fixpoint": result["fixpoint"], "longest minimal history": list(longest)}, limit=1)
